@@ -103,8 +103,8 @@ impl Prop for P {
                         (r, r.ok().map(|n| out[..n].to_vec()))
                     };
                     for s in scheds {
-                        let mut cuts: Vec<usize> = s.chunks.iter().scan(0usize, |acc, &c| { *acc = (*acc + c as usize).min(data.len()); Some(*acc) }).collect();
-                        cuts.dedup();
+                        // zero-length chunks stay in: an empty slice between two others is still "more input follows"
+                        let cuts: Vec<usize> = s.chunks.iter().scan(0usize, |acc, &c| { *acc = (*acc + c as usize).min(data.len()); Some(*acc) }).collect();
                         let mut slices: Vec<&[u8]> = Vec::new();
                         let mut p = 0;
                         for c in cuts {
